@@ -134,6 +134,32 @@ if len(rp) < 8 or any("*(size_t)pitch]" not in x for x in rp if "row_pointer[hei
 if re.search(r"&buf\[[^\]]*\*pitch\]", mp + ntj):
     die("a row address is computed as &buf[row * pitch] without the size_t cast")
 
+# replicating upsamplers (model/ExtentUps.v)
+def fbody_nc(path, name):
+    t = open(repo + "/src/" + path).read()
+    m = re.search(r"\n" + name + r"\(j_decompress_ptr cinfo.*?\n}\n", t, re.S)
+    if not m:
+        die("%s: function %s not found" % (path, name))
+    return norm(re.sub(r"/\*.*?\*/", "", m.group(0), flags=re.S))
+ups_pins = {
+    "int_upsample": ["outend=outptr+cinfo->output_width;while(outptr<outend){invalue=*inptr++;for(h=h_expand;h>0;h--){*outptr++=invalue;}}",
+                     "if(v_expand>1){_jcopy_sample_rows(output_data,outrow,output_data,outrow+1,v_expand-1,cinfo->output_width);}"],
+    "h2v1_upsample": ["outend=outptr+cinfo->output_width;while(outptr<outend){invalue=*inptr++;*outptr++=invalue;*outptr++=invalue;}"],
+    "h2v2_upsample": ["outend=outptr+cinfo->output_width;while(outptr<outend){invalue=*inptr++;*outptr++=invalue;*outptr++=invalue;}",
+                      "_jcopy_sample_rows(output_data,outrow,output_data,outrow+1,1,cinfo->output_width);"],
+    "h1v2_fancy_upsample": ["for(colctr=0;colctr<compptr->downsampled_width;colctr++){thiscolsum=(*inptr0++)*3+(*inptr1++);*outptr++=(_JSAMPLE)((thiscolsum+bias)>>2);}"],
+}
+for fn, pins in ups_pins.items():
+    b = fbody_nc("jdsample.c", fn)
+    for n in pins:
+        if n not in b:
+            die("jdsample.c: %s: loop the model transcribes is gone: %s" % (fn, n))
+jds = norm(re.sub(r"/\*.*?\*/", "", open(repo + "/src/jdsample.c").read(), flags=re.S))
+for n in ("(JDIMENSION)jround_up((long)cinfo->output_width,(long)cinfo->max_h_samp_factor),", "upsample->h_expand[ci]=(UINT8)(h_out_group/h_in_group);",
+          "upsample->v_expand[ci]=(UINT8)(v_out_group/v_in_group);"):
+    if n not in jds:
+        die("jdsample.c: jinit_upsampler: statement the model relies on is gone: " + n)
+
 # RGB565 converters (model/Extent565.v): six functions, same store structure; is num_cols set per row?
 c565 = open(repo + "/src/jdcol565.c").read()
 funcs = re.findall(r"\n(\w+_rgb565D?_convert_internal)\(j_decompress_ptr cinfo(.*?)\n}\n", c565, re.S)
